@@ -154,8 +154,10 @@ def smt_name(name: str) -> str:
 class Encoder:
     """sympy -> z3. One encoder per verification condition (side axioms are collected)."""
 
-    def __init__(self, ack: bool = True):
+    def __init__(self, ack: bool = True, abstract: bool = False):
         self.ack = ack                # Ackermann reduction: applications become constants + congruence
+        self.abstract = abstract      # every non-linear subterm becomes one fresh real constant (a relaxation: only unsat is meaningful)
+        self._abs: dict = {}
         self.apps: dict = {}          # function name -> list of (arg terms, constant)
         self.app_terms: dict = {}     # Ackermann constant name -> sympy application
         self.side: list = []          # axioms about sqrt / pow / transcendental instances
@@ -244,9 +246,24 @@ class Encoder:
         e = to_sym(e)
         if e in self._cache:
             return self._cache[e]
-        r = self._rat(e)
+        if self.abstract and self._nonlinear(e):
+            if e not in self._abs:
+                self._abs[e] = z3.Real(f"abs!{len(self._abs)}")
+            r = (self._abs[e], None)
+        else:
+            r = self._rat(e)
         self._cache[e] = r
         return r
+
+    @staticmethod
+    def _nonlinear(e) -> bool:
+        if isinstance(e, sp.Mul):
+            return sum(1 for t in e.args if not t.is_number) >= 2 or any(isinstance(t, sp.Pow) and not t.is_number for t in e.args)
+        if isinstance(e, sp.Pow):
+            return not e.is_number
+        if isinstance(e, sp.Function) and not isinstance(e, (sp.Abs, sp.Max, sp.Min, sp.Piecewise, sp.sign, sp.floor)):
+            return True
+        return False
 
     def _rat(self, e):
         if isinstance(e, sp.Integer):
@@ -615,6 +632,10 @@ def num_eval(e, env: dict, funcs: dict):
         return num_eval(e.base, env, funcs) ** num_eval(e.exp, env, funcs)
     if isinstance(e, sp.Abs):
         return abs(num_eval(e.args[0], env, funcs))
+    if isinstance(e, sp.Max):
+        return max(num_eval(a, env, funcs) for a in e.args)
+    if isinstance(e, sp.Min):
+        return min(num_eval(a, env, funcs) for a in e.args)
     if isinstance(e, sp.Piecewise):
         for val, cond in e.args:
             if bool_eval(cond, env, funcs):
